@@ -4,7 +4,7 @@ From WZ Require Import Model.Walk Model.Open Gen.Walkers.
 Import ListNotations.
 Open Scope string_scope.
 
-Definition entry := "parseDocument".
+Definition entry := entry_walker.
 
 (* short constructors for the case files *)
 Definition s := TStart.
